@@ -8,6 +8,7 @@ renamed working variable) is ANALYSIS-ERROR, never a pass and never a violation.
 from __future__ import annotations
 
 import ast
+import copy
 from typing import Dict, List, Optional, Tuple
 
 import sympy as sp
@@ -479,6 +480,16 @@ def rule_filterwalk(ctx: Ctx) -> List[Ob]:
     if isinstance(lp, ast.For):
         rng = lp.iter
         rev = False
+        tgt = lp.target
+        counter = None
+        if isinstance(rng, ast.Call) and dotted(rng.func) == "enumerate" and rng.args and isinstance(tgt, ast.Tuple) and len(tgt.elts) == 2 \
+                and all(isinstance(t_, ast.Name) for t_ in tgt.elts):
+            # for c, k in enumerate(E, start=s): k walks E, c = s + visit number
+            st_ = kw(rng, "start") or (rng.args[1] if len(rng.args) > 1 else ast.Constant(0))
+            counter = (tgt.elts[0].id, st_)
+            rng, tgt = rng.args[0], tgt.elts[1]
+        lp = copy.copy(lp)
+        lp.target = tgt
         if isinstance(rng, ast.Call) and dotted(rng.func) == "reversed" and len(rng.args) == 1:
             rng, rev = rng.args[0], True
         elif isinstance(rng, ast.Call) and dotted(rng.func) == "range" and len(rng.args) == 3 and src(rng.args[1]) == "-1" and src(rng.args[2]) == "-1" \
@@ -504,6 +515,11 @@ def rule_filterwalk(ctx: Ctx) -> List[Ob]:
         okk, v = False, None
         if okr:
             K.env[lp.target.id] = Sc(first.e - i) if first is not None else Sc(n_it.e - 1 - i) if rev else Sc(i)
+            if counter is not None:
+                try:
+                    K.env[counter[0]] = Sc(K.ev(counter[1]).e + i)
+                except AnalysisError:
+                    pass
             for s in lp.body:
                 if isinstance(s, (ast.Assign, ast.AnnAssign)) and isinstance((s.targets[0] if isinstance(s, ast.Assign) else s.target), ast.Name):
                     try:
@@ -713,7 +729,7 @@ def rule_pgform(ctx: Ctx) -> List[Ob]:
     obs.append(ob("PGFORM", "projgr is the infinity norm of P(x - g) - x", f, rets[0], ok, why,
                   construct="projgr: max(abs(clip(x - grad, lb, ub) - x))"))
     g = ctx.repo.func("main.is_f0_min_change_reached")
-    f0, fo, ft = g.params[0], g.params[1], g.params[2]
+    f0, fo, ft = ("f0", "f0_old", "ftol") if all(p_ in g.params for p_ in ("f0", "f0_old", "ftol")) else (g.params[0], g.params[1], g.params[2])
     tests = [s for s in g.node.body if isinstance(s, ast.If)]
     need(len(tests) >= 1, "PGFORM: relative-reduction test not found")
     from ..flow import Expander
